@@ -113,11 +113,13 @@ func c01Judge(c schedCase, res *schedResult) error {
 			// F-C01-1: the liveness bookkeeping in Change.abortLanes stops at the
 			// first lane of a task that is in the kill list, so a dead task does not
 			// mark its later-listed lanes unhealthy.  A violation is attributed to
-			// it only if some lane of the kept task has no dead member that would
-			// have been recorded regardless (single-lane, or that lane listed first).
+			// it only if some lane of the kept task has a dead member whose deadness
+			// can be hidden that way (multi-lane, that lane not listed first); the
+			// other dead members of the lane may have died after the task was last
+			// examined (deaths inside already aborted lanes do not re-examine it).
 			explained := false
 			for _, l := range schedLanes(c, i) {
-				dead, deadRecorded := false, false
+				dead, hidden := false, false
 				for j := range c.Tasks {
 					if j == i || c.Tasks[j].Chg != ts.Chg {
 						continue
@@ -126,15 +128,18 @@ func c01Judge(c schedCase, res *schedResult) error {
 					for _, x := range lj {
 						if x == l && (res.final[j] == ErrorStatus || res.final[j] == HoldStatus || res.final[j] == UndoneStatus) {
 							dead = true
-							if len(lj) == 1 || lj[0] == l {
-								deadRecorded = true
+							if len(lj) > 1 && lj[0] != l {
+								// a dead multi-lane task lists this lane after another
+								// one: whenever that other lane is in the kill list its
+								// deadness is not recorded for this lane
+								hidden = true
 							}
 						}
 					}
 				}
 				if !dead {
 					allUnhealthy = false
-				} else if !deadRecorded {
+				} else if hidden {
 					explained = true
 				}
 			}
